@@ -10,7 +10,8 @@ EXPLANATION = (
     "D3 line shapes: checksum line = [digest] \" (\" [name] \") = \" [hash] \"\\n\", size line = \"Size (\" [name] \") = \" [size] \" bytes\\n\", identical in Entry::as_bytes and Distinfo::as_bytes; "
     "the reader's field positions (keyword 0, name 1, value 3) and its size keyword are derived from the writer's shapes and must agree; "
     "D4 layout: the distfile/patchfile classification equals the naming rule on every feasible predicate assignment and is applied to the lossless-for-ASCII file name (rule shared with C11); header (rcsid or $NetBSD$, blank line), then distfiles (checksum lines then size line), then patchfiles (checksum lines), loops driven by the maps' values() in order; field tests may be `field == k` or the arm k of `match field`, the name cut `s[1..len-1]` under s[0]=='(' && s[len-1]==')' or strip_prefix(b\"(\") then strip_suffix(b\")\")"
-    " D1-DIGEST-NAME the algorithm name written with Digest's Display is read back by Digest::from_str: C13's D2-DISPLAY / D2-ROUNDTRIP / D2-PARSE verdicts are shared instances.")
+    " D1-DIGEST-NAME the algorithm name written with Digest's Display is read back by Digest::from_str: C13's D2-DISPLAY / D2-ROUNDTRIP / D2-PARSE verdicts are shared instances."
+    " D4-INSERT Distinfo::insert files an entry under its own filename in the map of its own kind.")
 NOT_DECIDED = [
     "byte-exact equality for every canonical file (std formatting of u64, IndexMap semantics)",
     "sizes on patch entries are not written (the canonical layout has none)",
@@ -422,6 +423,35 @@ def run(ctx):
 
     # ---- the accessors through which a parsed file is observed (and which the writer itself uses)
     distinfo_accessors(ctx, "D4-ACCESSOR")
+
+    # ---- D4-INSERT: Distinfo::insert (the API half of "build, write, parse back") files an entry under ITS OWN NAME in the map of ITS OWN KIND:
+    #      the writer walks the maps and prints entry.filename, the reader keys by the printed name, so any other key (filepath, a derived
+    #      name) or the other map makes entries collide, duplicate or change section
+    DI = "distinfo::Distinfo::insert"
+    ips = ctx.paths(DI)
+    if ips:
+        ibody = ctx.body(DI)
+        rows = 0
+        okall = True
+        why = ""
+        for p in ret_paths(ips):
+            ins = [e for e in p.events if ev_is(e, "IndexMap::insert", "IndexMap<K, V, S>::insert", "HashMap::insert", "BTreeMap::insert", "IndexMap::insert_full", "IndexMap::entry")]
+            kind = [c for c in p.conds() if c.term[0] == "discr" and isinstance(deval(c.term[1]), tuple) and deval(c.term[1])[0] == "field" and deval(c.term[1])[3] == "filetype"
+                    and deval(deval(c.term[1])[1]) == ("param", 2) and c.fact[0] == "eq"]
+            if len(ins) != 1 or not kind:
+                okall, why = False, "a path does not make exactly one map insertion chosen by entry.filetype"
+                continue
+            rows += 1
+            e = ins[0]
+            want = {"Distfile": "distfiles", "Patchfile": "patchfiles"}.get(variant_by_discr(fx, "distinfo::EntryType", kind[-1].fact[1]))
+            okmap = mentions(e.args[0], lambda s_: s_[0] == "field" and s_[3] == want and deval(s_[1]) == ("param", 1))
+            okkey = carried_unchanged(e.args[1], lambda s_: isinstance(s_, tuple) and s_[0] == "field" and s_[3] == "filename" and deval(s_[1]) == ("param", 2))
+            okval = len(e.args) < 3 or deval(e.args[2]) == ("param", 2)
+            if not (okmap and okkey and okval):
+                okall = False
+                why = "an entry of kind %s is inserted into %s under the key %s" % (kind[-1].fact[1], term_str(e.args[0])[:40], term_str(e.args[1])[:60])
+        ctx.check(okall and rows >= 2, "D4-INSERT", DI, "own-name-own-map", "insert(entry): map chosen by entry.filetype, key = entry.filename, value = entry",
+                  "Distinfo::insert does not file the entry under its own filename in the map of its own kind (%s)" % (why or "fewer than two kinds handled"), fn_span(ibody))
 
     # ---- D1-DIGEST-NAME: the writer prints each checksum's algorithm with Digest's Display and the reader parses it back with Digest::from_str:
     #      the two tables must be mutually inverse (C13's D2-DISPLAY / D2-ROUNDTRIP / D2-PARSE verdicts, shared), or a written line is not read back
